@@ -337,12 +337,16 @@ def run_env(case):
             agg["later-fold-reset"] += 1
         env.reset(fold)
         got_calls = [(len(env.state.log), env.now())]
+        book = env.exchange[etf]
         if model["book_after_reset"] is not None:
-            book = env.exchange[etf]
             if book.bid_price != model["book_after_reset"]:
                 res.fail("episode %d: order book after reset shows %r, the chronologically last replayed quote is %r" % (
                     ep, book.bid_price, model["book_after_reset"]))
                 return finish_env(res, case, agg)
+        elif book.bid_price == book.bid_price or len(book.history["time"]) != 0:
+            res.fail("episode %d: no quote was replayed at reset but the order book shows %r with %d historical quotes" % (
+                ep, book.bid_price, len(book.history["time"])))
+            return finish_env(res, case, agg)
         nsteps = len(model["steps"]) - 1
         for j in range(nsteps):
             try:
